@@ -3,4 +3,5 @@ NEXT Next
 INVARIANT RefuseExecutesNothing
 INVARIANT RelayExact
 INVARIANT ExecsAsDispatcher
+INVARIANT UnknownCharsetNeverFails
 CHECK_DEADLOCK FALSE
